@@ -48,7 +48,9 @@ CONSTANTS BigSeries,   \* series whose label set is larger than a WAL page: thei
           ScriptName,  \* name of the sequence of action kinds the workload must follow ("free" = any), see Script
           MaxCrashes,  \* crashes per behaviour (2 = a second crash during recovery)
           CAllowKF,    \* known findings of C03 whose trigger may be generated (see CKF below)
-          CEmit        \* "none" | "all" | "class"
+          CrashOdds,   \* simulation only: a Crash is enabled with probability 1/CrashOdds per step (1 = always: model checking),
+          RecOdds,     \*   RecOdds for a second crash during recovery
+          CEmit        \* "none" | "all" | "class" (model checking: ACTION_CONSTRAINT CEmitAC) | "walk" (simulation: INVARIANT CEmitWalk)
 
 VARIABLES wal, wbl, cps, cptmp, blks, tmpc, tmpd, rep,   \* files
           nextId,     \* rank of the next block ULID
@@ -76,23 +78,31 @@ cvars == <<dbvars, nops, hist, fvars, mvars, pc, prog, nstep, gvars, trace>>
 CView == <<dbvars, fvars, mvars, pc, prog, ackd, infl, ncrash, ckf, tornrec, rcont>>
 
 WblOn == W > 0
-
-\* Scripts (cfg files cannot hold tuples): N = NewAppender, A = Append, C = Commit, ...
-Kinds3(q) == [i \in 1..Len(q) |->
-   CASE q[i] = "N" -> "NewAppender" [] q[i] = "A" -> "Append" [] q[i] = "C" -> "Commit" [] q[i] = "B" -> "Rollback"
-     [] q[i] = "D" -> "Delete" [] q[i] = "H" -> "Compact" [] q[i] = "O" -> "CompactOOO" [] q[i] = "T" -> "CleanTombstones"
-     [] q[i] = "M" -> "Mmap" [] q[i] = "R" -> "Reopen"]
-NAC == <<"N", "A", "C">>
-NAAC == <<"N", "A", "A", "C">>
-Script == Kinds3(
-  CASE ScriptName = "free" -> <<>>
-    \* two commits, head compaction, restart, commit
-    [] ScriptName = "s1" -> NAC \o NAAC \o <<"H", "R">> \o NAC
-    \* commits with restarts (segments), compaction with checkpoint, delete, compaction, clean tombstones
-    [] ScriptName = "s2" -> NAC \o <<"R">> \o NAAC \o <<"R">> \o NAC \o <<"H">> \o NAC \o <<"D", "H", "T", "R">>
-    \* out-of-order data: commit, ooo commit, compaction (head + ooo + vertical block compaction)
-    [] ScriptName = "s3" -> NAC \o NAAC \o NAC \o <<"O">> \o NAC \o <<"H">> \o NAC \o <<"H", "R">>)
 Ranges == <<R, 3 * R, 9 * R>>        \* ExponentialBlockRanges(MinBlockDuration, 10, 3) cut at MaxBlockDuration = 9R
+
+\* Scripts (cfg files cannot hold tuples).  A token names the kind of the next call and optionally what it must achieve:
+\*   N NewAppender; A Append (Ai accepted in order, Ao accepted out of order, Ax rejected); C Commit; B Rollback;
+\*   D Delete (Dd deletes something); H Compact (Hb writes at least one head block); O CompactOOO (Oo with out-of-order data);
+\*   T CleanTombstones (Tt rewrites a block); M Mmap; R Reopen
+KindOf(tok) ==
+   CASE tok = "N" -> "NewAppender" [] tok \in {"A", "Ai", "Ao", "Ax"} -> "Append" [] tok = "C" -> "Commit" [] tok = "B" -> "Rollback"
+     [] tok \in {"D", "Dd"} -> "Delete" [] tok \in {"H", "Hb"} -> "Compact" [] tok \in {"O", "Oo"} -> "CompactOOO"
+     [] tok \in {"T", "Tt"} -> "CleanTombstones" [] tok = "M" -> "Mmap" [] tok = "R" -> "Reopen"
+NC == <<"N", "Ai", "C">>
+NCC == <<"N", "Ai", "Ai", "C">>
+NOC == <<"N", "Ao", "C">>
+Script ==
+  CASE ScriptName = "free" -> <<>>
+    \* torn record of a big series record with acknowledged out-of-order data in the WBL (KF-C03-1, KF-C03-2)
+    [] ScriptName = "k1" -> NC \o NOC \o NC
+    \* restarts (one WAL segment each), head compaction with checkpoint and segment removal, again (old checkpoint removed)
+    [] ScriptName = "s1" -> NC \o <<"R">> \o NCC \o <<"R">> \o NC \o <<"R">> \o NC \o <<"Hb">> \o NC \o <<"R">> \o NC \o <<"Hb", "R">>
+    \* head compaction, delete over head and block, compaction, tombstone cleaning, restart
+    [] ScriptName = "s2" -> NC \o NCC \o <<"Hb">> \o NC \o <<"Dd", "H", "Tt">> \o NC \o <<"R">>
+    \* out-of-order data: WBL, out-of-order compaction, head compaction with out-of-order head and vertical block compaction
+    [] ScriptName = "s3" -> NC \o NC \o NOC \o <<"Oo">> \o NC \o NOC \o <<"Hb">> \o NC \o <<"Hb", "R">>
+    \* rollback of a new series, rejected append, commit
+    [] ScriptName = "s4" -> <<"N", "Ai", "B", "N", "Ax", "Ai", "C", "R">> \o NC \o <<"N", "Ai", "B", "Hb">>
 
 -----------------------------------------------------------------------------
 (* Files *)
@@ -378,7 +388,30 @@ Begin(kind, pr) ==
   /\ trace' = Append(trace, Marker(kind))
   /\ UNCHANGED <<fvars, ackd, nack, ncrash, ckf, tornrec, rcont>>
 
-ScriptOK(kind) == Script = <<>> \/ (nops < Len(Script) /\ Script[nops + 1] = kind)
+\* KF-C03-3: the call removes the in-order block with the highest MaxTime (all its samples were deleted and the block is
+\* dropped by block compaction or CleanTombstones) while the WAL still holds samples below that time: after a restart
+\* minValidTime is lower and the WAL replay appends the deleted samples again.  Db.tla keeps blkMax monotone.
+BeginKF(kind, pr, trig) ==
+  /\ (trig => "KF-C03-3" \in CAllowKF)
+  /\ pc' = "run" /\ prog' = pr /\ nstep' = 0
+  /\ infl' = kind
+  /\ trace' = Append(trace, Marker(kind))
+  /\ ckf' = IF trig THEN ckf \cup {"KF-C03-3"} ELSE ckf
+  /\ UNCHANGED <<fvars, ackd, nack, ncrash, tornrec, rcont>>
+
+ScriptOK(kind) == IF Script = <<>> THEN TRUE ELSE (nops < Len(Script) /\ KindOf(Script[nops + 1]) = kind)
+\* what the scripted call must achieve, evaluated on the step that begins it
+ScriptAim ==
+  IF Script = <<>> THEN TRUE ELSE
+  LET tok == Script[nops + 1]  r == hist'[Len(hist')] IN
+  CASE tok = "Ai" -> r.ret = "ok" /\ ~r.ooo
+    [] tok = "Ao" -> r.ret = "ok" /\ r.ooo
+    [] tok = "Ax" -> r.ret # "ok"
+    [] tok = "Dd" -> stored' # stored
+    [] tok = "Hb" -> r.nblocks > 0
+    [] tok = "Oo" -> \E s \in Series : OOOAll(s) # {}
+    [] tok = "Tt" -> prog' # <<>>
+    [] OTHER -> TRUE
 
 -----------------------------------------------------------------------------
 (* Calls without persistent effect *)
@@ -566,7 +599,7 @@ CCompact ==
          wexp2 == (IF doTrunc /\ CpMade(h.f) THEN {e \in wexp1 : e.until >= mint} ELSE wexp1)
                   \cup {[ref |-> <<s, cur1[s]>>, until |-> InoMin(ino')] : s \in {x \in Series : cur1[x] > 0 /\ cur2[x] = 0}}
          bc == BlocksProg(o.f, o.id, 4)
-     IN /\ Begin("Compact", h.p \o tw \o o.p \o bc.p)
+     IN /\ BeginKF("Compact", h.p \o tw \o o.p \o bc.p, BlkMaxOf(bc.f.blks) # blkMax')
         /\ nextId' = bc.id
         /\ cur' = cur2 /\ wexp' = wexp2
         /\ lastTrunc' = IF doTrunc THEN mint ELSE lastTrunc
@@ -606,7 +639,7 @@ CCleanTombstones ==
   /\ pc = "idle" /\ ScriptOK("CleanTombstones")
   /\ CleanTombstones
   /\ LET c == CleanProg(Files, nextId, 4) IN
-     /\ Begin("CleanTombstones", c.p)
+     /\ BeginKF("CleanTombstones", c.p, BlkMaxOf(c.f.blks) # blkMax')
      /\ nextId' = c.id
   /\ UNCHANGED <<cur, ngen, wexp, mine, lastTrunc>>
 
@@ -643,6 +676,7 @@ Count(q, x) == Cardinality({i \in 1..Len(q) : q[i] = x})
 \* Known findings of C03 (deviations of the code from the property, reproduced on the real code):
 \*   "KF-C03-1"  a torn last WAL record makes Head.Init fail; open() repairs the WAL but Init has returned before
 \*               replaying the WBL: acknowledged out-of-order samples are invisible until the next restart
+\*   "KF-C03-3"  see BeginKF
 \*   "KF-C03-2"  a second crash inside WL.Repair between the rename of the damaged segment to <k>.repair and the
 \*               end of the re-insertion loses the acknowledged records of that segment
 CKF(f) == (IF Torn(f) /\ \E s \in Series : WblSamples(f, {<<x, g>> : x \in Series, g \in 0..4})[s] # {} THEN {"KF-C03-1"} ELSE {})
@@ -657,6 +691,7 @@ Crash ==
   /\ ncrash < MaxCrashes
   /\ \/ pc = "idle"
      \/ pc \in {"run", "rec"} /\ nstep > 0
+  /\ LET odds == IF pc = "rec" THEN RecOdds ELSE CrashOdds IN odds = 1 \/ RandomElement(1..odds) = 1
   /\ CKF(Files) \subseteq CAllowKF
   /\ ckf' = ckf \cup CKF(Files)
   /\ LET site == IF pc = "idle" THEN "end-of-workload" ELSE Last(trace)
@@ -704,7 +739,7 @@ CDo(k) ==
 OpBound == IF Script = <<>> THEN nops < MaxOps ELSE nops < Len(Script)
 
 CNext ==
-  \/ OpBound /\ ncrash = 0 /\ (\E k \in Acts : CDo(k)) /\ UNCHANGED kindv
+  \/ OpBound /\ ncrash = 0 /\ (\E k \in Acts : CDo(k)) /\ ScriptAim /\ UNCHANGED kindv
   \/ StepProg
   \/ Ack
   \/ Crash
@@ -727,14 +762,20 @@ Survive ==
     \A s \in Series : /\ TKey(Lower(s)) \subseteq TKey(rcont[s])
                       /\ VKey(rcont[s]) \subseteq VKey(Upper(s))
 
+\* the same without the waiver for known findings (used to exhibit them: CAllowKF = all, expect a counterexample)
+SurviveStrict ==
+  pc = "done" /\ ncrash > 0 =>
+    \A s \in Series : /\ TKey(Lower(s)) \subseteq TKey(rcont[s])
+                      /\ VKey(rcont[s]) \subseteq VKey(Upper(s))
+
 \* what is on disk while the process runs agrees with Db's abstraction of it (validates the file model against Db.tla):
 \* between calls, a replay of the files gives exactly the committed-and-undeleted set
 FilesAgree ==
-  pc = "idle" /\ ncrash = 0 /\ kfset = {} =>
+  pc = "idle" /\ ncrash = 0 /\ kfset = {} /\ ckf = {} =>
     \A s \in Series : /\ TKey(Recovered(Files)[s]) = TKey(stored[s])
                       /\ VKey(Recovered(Files)[s]) \subseteq VKey(stored[s])
 BlocksAgree ==
-  pc = "idle" /\ ncrash = 0 => /\ \A s \in Series : BlkOf(blks, s) = blk[s]
+  pc = "idle" /\ ncrash = 0 /\ ckf = {} => /\ \A s \in Series : BlkOf(blks, s) = blk[s]
                                /\ BlkMaxOf(blks) = blkMax
 
 \* no temporary directory survives an Open; never two blocks of which one is the parent of the other
@@ -762,4 +803,5 @@ CEmitAC ==
                 \/ cl \in TLCGet(1)
                 \/ /\ TLCSet(1, TLCGet(1) \cup {cl})
                    /\ PrintT("@@TR " \o ToJson(hist'))
+CEmitWalk == CEmit # "walk" \/ pc # "done" \/ PrintT("@@TR " \o ToJson(hist))
 =============================================================================
